@@ -970,6 +970,18 @@ func (obj *Package) DefLambda(name string, lam *Lambda, fc func(args List) Objec
 		if vv := obj.vars[name]; vv != nil && Unbound == vv.Val && vv.Export && vv.Pkg == obj {
 			fi.Export = true
 			delete(obj.vars, name)
+			// The packages using this one get the function in place of
+			// the placeholder.
+			for _, u := range obj.Users {
+				u.mu.Lock()
+				if u.vars[name] == vv {
+					delete(u.vars, name)
+				}
+				if xf := u.funcs[name]; xf == nil || (xf.Pkg == u && xf.Doc == nil) {
+					u.funcs[name] = &fi
+				}
+				u.mu.Unlock()
+			}
 		}
 	}
 	obj.mu.Unlock()
